@@ -28,6 +28,10 @@ Seeds == { <<0, 0, 0>>, <<0, 0, 1>>, <<0, 1, 0>>, <<0, 1, 5>>, <<1, 0, 0>>, <<3,
 \* included: "all tensor shapes"), and a few larger ones
 TensorShapes ==
   UNION {[1..r -> 0..2] : r \in 1..4} \cup {<<7>>, <<3, 5>>, <<5, 3>>, <<2, 3, 4>>, <<4, 1, 3>>, <<2, 1, 3, 2>>, <<1, 2, 1, 5>>}
+\* vectors longer than 2^24: len - 1 rounds to len in single precision for some of them; started in the states whose FIRST
+\* draw has ratio one (the first swap draws an index for the whole vector) and in two ordinary states
+BigLens == {16777217, 16777220}
+BigShuffleStates == {PrevState(M - 1), PrevState(M - 2), PrevState(M - 40), 12345}
 RECURSIVE ProdSeq(_)
 ProdSeq(q) == IF q = <<>> THEN 1 ELSE Head(q) * ProdSeq(Tail(q))
 
@@ -37,6 +41,7 @@ Init ==
      \/ \E x \in States, len \in ShuffleLen : pick = [kind |-> "shuffle", x |-> x, len |-> len]
      \/ \E s \in Seeds : pick = [kind |-> "seed", limbs |-> s]
      \/ \E sh \in TensorShapes : pick = [kind |-> "tensor", shape |-> sh]
+     \/ \E x \in BigShuffleStates, len \in BigLens : pick = [kind |-> "bigshuffle", x |-> x, len |-> len]
 
 Compute ==
   /\ rec = <<>> /\ UNCHANGED pick
@@ -53,6 +58,8 @@ Compute ==
                    [kind |-> "seed", limbs |-> pick.limbs, x |-> x0,
                     m1 |-> RNE24(NextState(x0)).m, e1 |-> RNE24(NextState(x0)).e,
                     m2 |-> RNE24(NextState(NextState(x0))).m, e2 |-> RNE24(NextState(NextState(x0))).e]
+              [] pick.kind = "bigshuffle" ->
+                   [kind |-> "bigshuffle", x |-> pick.x, len |-> pick.len, one |-> RatioIsOne(NextState(pick.x))]
               [] pick.kind = "tensor" ->
                    \* the contract: dimension i of the data is shape[i] at every nesting position that exists, and the
                    \* tensor holds prod(shape) entries, each inside the requested interval
